@@ -234,7 +234,13 @@ def make_cases(ctx):
                          "short"):
                 yield "fin-%s-%s-%s" % (sc, role, what), dict(
                     site="finished", sc=sc, role=role, cls=what)
-    for what in ("honest", "other_hash", "same_hash", "both", "ticket_then_ext_psk"):
+    for ver in ((3, 1), (3, 3)):
+        for kind in ("cert", "anon"):
+            for db in (False, True):
+                yield "srpclaim-%d-%s-%d" % (ver[1], kind, db), dict(
+                    site="srp_claim", ver=ver, kind=kind, db=db)
+    for what in ("honest", "other_hash", "same_hash", "both",
+                 "ticket_then_ext_psk"):
         yield "stolen-ticket-%s" % what, dict(site="stolen_ticket", cls=what)
     for ee, dc in (("ecdsa256", "ed25519"), ("ecdsa256", "ecdsa384"),
                    ("rsa", "ecdsa256"), ("ecdsa384", "rsa")):
@@ -978,10 +984,60 @@ def run_checker(ctx, cid, P):
     ctx.cell("cell", "checker|%s|%s|%s" % (cls, pair.VNAME[ver], tc.status))
 
 
+def run_srp_claim(ctx, cid, P):
+    """a client in a certificate (or anonymous) handshake merely *names* an
+    SRP user in its ClientHello: no password proof takes place, so no SRP
+    identity may be recorded"""
+    from tlslite.utils.codec import Writer
+    ver = tuple(P["ver"])
+    kind = P["kind"]
+    cs = ver_settings(ver)
+    ss = ver_settings(ver)
+    fl = Flavor(kind, skey="rsa" if kind == "cert" else None, cset=cs,
+                sset=ss)
+    if P["db"]:
+        fl.server_kw = dict(verifierDB=creds.verifier_db())
+    p = Pair()
+    st = {"hit": False}
+
+    def rw(i, t, msg, raw):
+        if t != 1 or st["hit"]:
+            return None
+        h = wire.parse_client_hello(bytes(raw[4:]))
+        name = creds.SRP_USER.encode()
+        h.exts = [(a, b) for a, b in (h.exts or []) if a != 12] + \
+            [(12, bytes([len(name)]) + name)]
+        st["hit"] = True
+        return [adv.Raw(22, wire.hs_msg(1, wire.ser_client_hello(h)))]
+    adv.Deviant(p.c, rw)
+    tc, ts = p.handshake(fl)
+    ctx.ev()
+    key = {"site": "srp_claim", "class": kind, "ver": pair.VNAME[ver]}
+    W = {"case": cid, "outcome": [outcome(tc), outcome(ts)],
+         "verifier_db": P["db"]}
+    if not st["hit"]:
+        ctx.count("corruption_not_reached")
+        return
+    sess = p.s.session
+    if ts.status == "done" and sess is not None and sess.srpUsername:
+        ctx.violation(dict(key, clause="identity_without_proof",
+                           identity="srpUsername"), W,
+                      "server completed a %s handshake and recorded "
+                      "srpUsername=%r, which the client only named in its "
+                      "hello" % (kind, sess.srpUsername))
+    else:
+        ctx.count("rejected" if ts.status != "done"
+                  else "completed_anonymous")
+    ctx.cell("cell", "srp_claim|%s|%s|%s" % (kind, pair.VNAME[ver],
+                                            outcome(ts)[0]))
+
+
 def run(ctx):
     for cid, P in ctx.cases(make_cases(ctx)):
         s = P["site"]
-        if s == "srp":
+        if s == "srp_claim":
+            run_srp_claim(ctx, cid, P)
+        elif s == "srp":
             run_srp(ctx, cid, P)
         elif s == "psk":
             run_psk(ctx, cid, P)
